@@ -35,7 +35,8 @@ CASES = {
     'top': Q(items=[fa(1)], top=1),
     'minmax': Q(items=[agg('MIN', 'a1', lambda e: e.a(1), 'min'), agg('MAX', 'a2', A2, 'max'), Item('max(a1, a2)', lambda e: max(e.a(1), e.a(2)))], group=[('max(a1, a2)', lambda e: max(e.a(1), e.a(2)))]),
     'join': Q(items=[fa(1), fb(2)], join=join('JOIN')),
-    'avgstr': Q(items=[agg('AVG', 'a2', A2), agg('VARIANCE', 'a2', A2, 'variance'), agg('MIN', 'a2', A2, 'Min')]),
+    'avgstr': Q(items=[agg('AVG', 'a2', A2), agg('VARIANCE', 'a2', A2, 'variance'), agg('MIN', 'a2', A2, 'Min'), agg('SUM', 'a2', A2, 'Sum'), agg('MEDIAN', 'a2', A2, 'median'), agg('MAX', 'a2', A2)]),
+    'named-lit': Q(items=[sub('k'), fa(2), NR], ha=['k', 'v']),
     'named': Q(items=[attr('v'), sub('k'), NR], where=("a.v != 1", lambda e: e.an('v') != 1), ha=['k', 'v']),
     'named-swapped': Q(items=[attr('v'), sub('k'), NR], where=("a.v != 1", lambda e: e.an('v') != 1), ha=['v', 'k']),
     'named-update': Q(update=[('a.v', 1, 'a.k', lambda e: e.an('k'))], ha=['k', 'v']),
@@ -53,7 +54,7 @@ def run(name, T, B=None):
     return qh.run_pair(P.CASES[name], P.TEXT[name], qh.copy_table(T), qh.copy_table(B))
 
 
-def scenario(i, T):
+def scenario(i, T, PT=None):
     """History step i (0 = nothing).  Results are discarded: only their side effects on the interpreter matter."""
     if i == 1:
         run('agg', T)
@@ -79,7 +80,12 @@ def scenario(i, T):
     elif i == 9:
         qh.run_rbql('select unnest([1, 2]), unnest([3])', qh.copy_table(T))  # double UNNEST error
     elif i == 15:
-        qh.run_rbql('select AVG(a2), VARIANCE(a1), MEDIAN(a2)', qh.copy_table(T))    # float aggregates over NON-string cells
+        qh.run_rbql('select AVG(a2), VARIANCE(a1), MEDIAN(a2), SUM(a1), MIN(a2), MAX(a1)', qh.copy_table(T))    # numeric aggregates over NON-string cells
+    elif i == 16:
+        qh.run_rbql('select a["v"], a2, NR', qh.copy_table(T), None, ['k', 'v'])   # same select list as probe `named-lit` up to the CONTENT of a string literal
+    elif i == 17:
+        qh.run_rbql('update set a2 = 5, a1 = a2', PT)        # an UPDATE over the very table OBJECT the probe reads afterwards (no copy)
+        qh.run_rbql('update set a1 = 10 // (NR - 2)', PT)    # ... and one that fails half way
     elif i == 13:
         qh.run_rbql('select a1, 10 // (NR - 2) order by a1', qh.copy_table(T))       # ORDER BY query failing after it has buffered a record
     elif i == 14:
@@ -107,19 +113,24 @@ def _history_obl(probe, rows, timeout, nsel=3, first=None, probe_first=True):
 T = %s
 B = [[0, 7], [1, 8], [1, 9]] if PROBE == 'join' else None
 # PROBE_FIRST: [probe, history, probe] ; otherwise [history, probe] (the history is then the very first use of the engine in this interpreter)
+snap = qh.copy_table(T)
 g0, e0 = run(PROBE, T, B) if PROBE_FIRST else (None, None)
 HT = [[1, 2], [0, 2], [1, 0]]     # history queries run on a fixed table: only their effect on interpreter state matters
 for h in [%s]:
-    scenario(h, HT)
-g1, e1 = run(PROBE, T, B)
+    scenario(h, HT, T)
+# the probe reads T as it is NOW; the expectation is computed from the snapshot taken before the history
+q = P.CASES[PROBE]
+exp = rel.run(q, qh.copy_table(snap), qh.copy_table(B))
+got = qh.run_rbql(P.TEXT[PROBE], qh.copy_table(T), qh.copy_table(B), q.ha, q.hb)
+g1, e1 = qh.normalise(got, exp)
 return ((g0, g1), (e0, e1))
 ''' % (texpr, ', '.join(n for n, _t in sels)))
-    selpre = ['0 <= %s <= 15' % n for n, _t in sels]
+    selpre = ['0 <= %s <= 17' % n for n, _t in sels]
     if first is not None:
         selpre[0] = 'h0 == %d' % first
     src = harness('PROBE = %r\nPROBE_FIRST = %r\n' % (probe, probe_first), sels + pa, selpre + pb + po, body, extra_defs=HIST_SRC)
     return Obl('history[probe=%s,rows=%d,len=%d%s%s]' % (probe, rows, nsel, (',first=%d' % first) if first is not None else '', '' if probe_first else ',history-first'), src, timeout=timeout,
-               meta={'query': TEXT[probe], 'bounds': 'every history of %d steps over 15 scenarios (+ nothing) x every %d-row table of ints 0..2' % (nsel, rows)})
+               meta={'query': TEXT[probe], 'bounds': 'every history of %d steps over 17 scenarios (+ nothing) x every %d-row table of ints 0..2' % (nsel, rows)})
 
 
 SCHED_SRC = HIST_SRC + '''
@@ -212,18 +223,22 @@ def obligations(tier, seed):
     quick = tier == 'quick'
     t = 200 if quick else 1200
     probes = ['agg', 'unnest', 'like', 'dcount', 'divide', 'minmax', 'top', 'join', 'sorted', 'avgstr'] if quick else [c for c in CASES if not c.endswith('-swapped')]
-    probes = probes + [x for x in ('named', 'named-update') if x not in probes]
+    probes = probes + [x for x in ('named', 'named-update', 'named-lit') if x not in probes]
     for pi, p in enumerate(probes):
-        for first in range(1, 16):
-            if p.startswith('named') and first not in (10, 11, 12, 1, 7):
+        for first in range(1, 18):
+            if p.startswith('named') and first not in (10, 11, 12, 1, 7, 16):
                 continue
             if not p.startswith('named') and first in (10, 11, 12):
                 continue
             if first in (13, 14) and p not in ('sorted', 'dcount', 'agg', 'top'):
                 continue
+            if (first == 16) != (p == 'named-lit') and (first == 16 or p == 'named-lit') and not (p == 'named-lit' and first in (1, 10)):
+                continue
+            if first == 17 and p not in ('agg', 'sorted', 'update', 'unnest'):
+                continue
             if (first == 15) != (p == 'avgstr') and (first == 15 or p == 'avgstr') and not (p == 'avgstr' and first in (1, 7)):
                 continue
-            if quick and (first + pi + seed) % 3 != 0 and not p.startswith('named') and first not in (13, 14, 15):
+            if quick and (first + pi + seed) % 3 != 0 and not p.startswith('named') and first not in (13, 14, 15, 16, 17):
                 continue
             pf = not p.startswith('named') and p != 'avgstr' and first not in (13, 14) and (first + pi) % 2 == 0
             obs.append(_history_obl(p, 2, t, nsel=2, first=first, probe_first=pf))
